@@ -26,7 +26,9 @@ ASSUMPTIONS = [
 N_Z1 = 5097
 N_Z3 = 30000
 N_SPRAY = 20000
-N_CASES = N_Z1 + N_Z3 + N_SPRAY
+N_Z2 = 60000   # tiny fragment documents (raw "<", "<div>", "[", "~"-free ...)
+N_Z5 = 30000   # inline soup
+N_CASES = N_Z1 + N_Z3 + N_SPRAY + N_Z2 + N_Z5
 
 TRIG = {
     "fm": lambda s: s.lstrip(" ").startswith("---"),
@@ -46,7 +48,7 @@ FM_INVALID = ["---\njust some text\n---\n", "---\nk: v\n", "---\n\nk: v\n---\n",
 
 
 def universe_hash():
-    return U.content_hash()
+    return PL.hash_ab()
 
 
 def plan(tier, seed, complete=False):
@@ -56,7 +58,7 @@ def plan(tier, seed, complete=False):
         from vf.prng import R, mix
 
         r = R(mix("C20", seed))
-        idx = sorted(set(r.sample(N_Z1, 1500)) | {N_Z1 + k for k in r.sample(N_Z3, 2500)} | {N_Z1 + N_Z3 + k for k in r.sample(N_SPRAY, 2000)})
+        idx = sorted(set(r.sample(N_Z1, 1200)) | {N_Z1 + k for k in r.sample(N_Z3, 2000)} | {N_Z1 + N_Z3 + k for k in r.sample(N_SPRAY + N_Z2 + N_Z5, 6000)})
     return {
         "items": [f"X:{i}" for i in idx],
         "zones": {"corpus": {"universe": N_Z1}, "calm trees": {"universe": N_Z3}, "extension-syntax spray": {"universe": N_SPRAY}, "run": {"cases": len(idx)}},
@@ -86,6 +88,10 @@ def case_doc(i):
             pool = FM_VALID if j % 10 == 0 else FM_INVALID
             return d, pool[r.below(len(pool))]
         return d, None
+    if i >= N_Z1 + N_Z3 + N_SPRAY + N_Z2:
+        return U.doc("Z5", ((i - N_Z1 - N_Z3 - N_SPRAY - N_Z2) * 15) % U.size("Z5")), None
+    if i >= N_Z1 + N_Z3 + N_SPRAY:
+        return U.doc("Z2", ((i - N_Z1 - N_Z3 - N_SPRAY) * 9) % 532000), None
     j = i - N_Z1 - N_Z3
     r = PR(0x20100000 + j)
     # small documents full of extension syntax (small, so that unrelated container-nesting defects do not drown the comparison)
@@ -130,7 +136,7 @@ def run_items(items, job):
         else:
             key = it
             doc, fm = case_doc(int(it.split(":")[1]))
-            spray_zone = int(it.split(":")[1]) >= N_Z1 + N_Z3
+            spray_zone = N_Z1 + N_Z3 <= int(it.split(":")[1]) < N_Z1 + N_Z3 + N_SPRAY
         R.evals += 1
         base_s, base_h, base_t = _ser(pm, T_off, doc)
         if base_s is None:
